@@ -63,6 +63,8 @@ var c17Paths = []string{
 	"anyKey[sliceKey]", "d.L[1%zero]",
 	// maps keyed by a defined string / integer type
 	"langs.en", `langs["en"]`, "langs.de", "langs.fr", "hits[idk]",
+	// arrays (by value, nested, behind a pointer)
+	"cells[1]", "rows[0][1]", "pcells[2]", "cells[3]", "rows[2][0]",
 }
 
 type c17Lang string
@@ -77,6 +79,10 @@ func c17Extra(vars VarMap, present map[string]bool) {
 	vars.Set("hits", map[c17ID]int{7: 0})
 	vars.Set("idk", int64(7))
 	present["langs.en"], present[`langs["en"]`], present["langs.de"], present["hits[idk]"] = true, true, true, true
+	vars.Set("cells", [3]int{0, 1, 2})
+	vars.Set("rows", [2][2]string{{"a", ""}, {"c", "d"}})
+	vars.Set("pcells", &[3]int{0, 1, 2})
+	present["cells[1]"], present["rows[0][1]"], present["pcells[2]"] = true, true, true
 }
 
 // H_C17_paths: isset(P) for 27 access paths (fields, chains, indexes, map keys; valid,
@@ -251,7 +257,7 @@ func H_C17_pairs() {
 //
 //gosym:reach checked
 func H_C17_shadowedNil() {
-	form := ndChoice("form", 10)
+	form := ndChoice("form", 16)
 	srcs := []string{
 		`{{ v := "outer" }}{{ if true }}{{ v := nil }}{{ isset(v) }}{{ end }}`,
 		`{{ v := "outer" }}{{ if true }}{{ v, ok := m["absent"] }}{{ isset(v) }}{{ end }}`,
@@ -263,6 +269,12 @@ func H_C17_shadowedNil() {
 		`{{ isset(ifs[2]) }}`,
 		`{{ isset(ifm.p) }}`,
 		`{{ isset(one, ifs[0]) }}`,
+		`{{ isset(nilFunc) }}`,
+		`{{ isset(nilChan) }}`,
+		`{{ isset(h.OnDone) }}`,
+		`{{ isset(h.Events) }}`,
+		`{{ nilChan | isset }}`,
+		`{{ isset(ifm.f) }}`,
 	}
 	set := hxSet(nil, "/m.jet", srcs[form])
 	set.AddGlobal("gv", "global")
@@ -274,12 +286,20 @@ func H_C17_shadowedNil() {
 	var ns []int
 	vars.Set("nilPtr", np)
 	vars.Set("ifs", []interface{}{np, nm, ns})
-	vars.Set("ifm", map[string]interface{}{"p": np})
+	var nf func()
+	var nc chan int
+	vars.Set("ifm", map[string]interface{}{"p": np, "f": nf})
 	vars.Set("one", 1)
+	vars.Set("nilFunc", nf)
+	vars.Set("nilChan", nc)
+	vars.Set("h", struct {
+		OnDone func()
+		Events chan int
+	}{})
 	out, err := hxExec(set, "/m.jet", vars, nil)
 	vfReach("checked")
 	vfAssert(err == nil, "isset never fails")
-	vfAssert(out == "false", "the innermost binding decides; a nil held in an interface is not set")
+	vfAssert(out == "false", "the innermost binding decides; a nil of any nilable kind (pointer, map, slice, func, chan), also held in an interface, is not set")
 }
 
 // H_C17_expressions: isset of arguments that are not access paths - the nil literal, calls
